@@ -29,6 +29,7 @@ type config struct {
 	grows  []uint
 	starts [][2]int // initial Grow argument per side (-1 = zero value)
 	ops    []space.Op
+	big    bool // searched with compactSearch (space.Search needs about 85 kB per state here)
 }
 
 var (
@@ -61,8 +62,8 @@ func configs(thorough bool) []*config {
 		// so either side can be the shorter / the poorer one)
 		cs[2] = &config{name: "dsz.Bits", kind: kDsz, alpha: [2][]uint{fullAlpha, nil}, grows: grows4, starts: starts1}
 		cs = append(cs,
-			&config{name: "setz.Bits/4words-A10xB7", kind: kBits, alpha: [2][]uint{fullAlpha, subAlpha}, grows: grows4, starts: starts2},
-			&config{name: "setz.Bitmap/4words-A10xB7", kind: kBitmap, alpha: [2][]uint{fullAlpha, subAlpha}, grows: grows4, starts: starts2})
+			&config{name: "setz.Bits/4words-A10xB7", kind: kBits, alpha: [2][]uint{fullAlpha, subAlpha}, grows: grows4, starts: starts2, big: true},
+			&config{name: "setz.Bitmap/4words-A10xB7", kind: kBitmap, alpha: [2][]uint{fullAlpha, subAlpha}, grows: grows4, starts: starts2, big: true})
 		maxWords = 4
 		all = fullAlpha
 	}
@@ -349,7 +350,10 @@ func (x *inst) Apply(op space.Op) *space.Mismatch {
 		// the source is compared with its unchanged model by the battery that follows
 		// (reported as source-changed-by-clone-mutation)
 	case "Clone+toggleInSource":
-		x.last, x.lastClass, x.want[side] = "Clone", "", nil
+		x.last, x.lastClass, x.want[side] = "Add", "on a cloned source", nil
+		if m[v] {
+			x.last = "Remove"
+		}
 		c := s.clone()
 		cm := copyModel(m)
 		want := sorted(cm)
@@ -440,12 +444,18 @@ func (x *inst) checkSet(side int) *space.Mismatch {
 	ep := s.ep()
 	want := x.sortedOf(side)
 	n := len(want)
-	fail := func(sig, format string, a ...any) *space.Mismatch {
-		after := "after-" + x.last
+	// Signatures: a wrong Len / Contains / first Iter pass may be the fault of the operation that
+	// produced the state, so its name is the input class (its finer class — receiver-shorter,
+	// new-beyond-capacity, ... — goes into the text only); the observers that run after the
+	// content was found correct are at fault themselves, whatever produced the state.
+	lastOp := func() string {
 		if x.lastClass != "" {
-			after += "/" + x.lastClass
+			return x.last + " (" + x.lastClass + ")"
 		}
-		return mm(ep+"."+sig+"|"+after, format, a...)
+		return x.last
+	}
+	fail := func(sig, format string, a ...any) *space.Mismatch {
+		return mm(ep+"."+sig+"|any-state", format+"; last operation: "+lastOp(), a...)
 	}
 	if f, msg := content(s, m, want); f != "" {
 		switch {
@@ -461,7 +471,7 @@ func (x *inst) checkSet(side int) *space.Mismatch {
 		case "Iter":
 			k = "wrong-sequence"
 		}
-		return fail(f+"|"+k, "%s", msg)
+		return mm(ep+"."+f+"|"+k+"|after-"+x.last, "%s; last operation: %s", msg, lastOp())
 	}
 	// Cap() is only required not to change membership (the enumerations below also run after it)
 	s.capv()
@@ -567,6 +577,7 @@ func main() {
 	walls := map[string]float64{}
 	nops := map[string]int{}
 	scope := map[string]any{}
+	engine := map[string]string{}
 	for _, c := range cs {
 		c := c
 		sys := space.System{
@@ -576,13 +587,31 @@ func main() {
 			Canon:  canon,
 		}
 		t0 := time.Now()
-		res := space.Search(r, sys)
+		var res space.Result
+		if c.big {
+			res = compactSearch(r, sys, true)
+			engine[c.name] = "compactSearch (cmd/c16/compact.go)"
+		} else {
+			res = space.Search(r, sys)
+			engine[c.name] = "space.Search"
+		}
 		walls[c.name] = float64(time.Since(t0).Milliseconds()) / 1000
 		nops[c.name] = len(c.ops)
 		scope[c.name] = map[string]any{"members_A": c.alpha[0], "members_B": c.alpha[1], "grow_arguments": c.grows, "start_grow_arguments_A/B": c.starts}
 		r.Nontrivial(int64(res.States))
 		results = append(results, res)
+		if r.Thorough() && c.idx == 0 && res.CapHit == "" {
+			// binding of the local search loop to the engine: same system, same numbers
+			t0 = time.Now()
+			alt := compactSearch(r, sys, false)
+			walls["cross-check of compactSearch on "+c.name] = float64(time.Since(t0).Milliseconds()) / 1000
+			if alt.CapHit == "" && alt != res {
+				common.Infra("compactSearch disagrees with space.Search on %s: %+v vs %+v", c.name, alt, res)
+			}
+			r.Cov("compactSearch_equals_space.Search_on", c.name)
+		}
 	}
+	r.Cov("search_loop_per_system", engine)
 	space.Summarize(r, results)
 	pairs := map[string][]string{}
 	for _, c := range cs {
